@@ -792,6 +792,27 @@ class C17(PropCheck):
             res.append([float(x) for x in b])
         return res
 
+    @staticmethod
+    def _own_slopes(orc, dr, perm, ob):
+        """Designs [1 X] without full numerical column rank have no unique least-squares slope: which exact solution LAPACK's
+        gelsd returns depends on whether the computed noise singular value (a few ulp of the largest) falls below its cut-off,
+        i.e. on rounding in the centring.  For such a parameter the model is fed with the run's OWN coefficients (canonical
+        listing; they are validated by the `ok` clause fit_ok / normal_eq_ok) instead of numpy's pick.  None = nothing replaced."""
+        if 'coef' not in dr or len(dr['coef']) != len(orc):
+            return None
+        res, rep = [], False
+        for q, o in enumerate(orc):
+            cf = dr['coef'][q]
+            if o['nf'] > 0 and not o['full'] and len(cf) == len(perm) and all(math.isfinite(x) for x in cf):
+                b = [0.0] * len(perm)
+                for pos, j in enumerate(perm):
+                    b[j] = cf[pos]
+                res.append(b)
+                rep = True
+            else:
+                res.append(list(ob[q]))
+        return res if rep else None
+
     def _oracle(self, summ, obs, params):
         """independent recomputation: finite rows, centred lstsq slope, rank of [1 X]."""
         S = np.array([[dec(x) for x in row] for row in summ], dtype=float)
@@ -888,14 +909,22 @@ class C17(PropCheck):
         if case['kind'] == 'adj':
             d = self._run_adjust(case['summ'], case['obs'], case['params'], case['use_names'])
             d['oracle'] = self._oracle(case['summ'], case['obs'], case['params'])
+            own = self._own_slopes(d['oracle'], d, list(range(len(case['obs']))), [o['b'] for o in d['oracle']])
+            if own is not None:
+                for o, b in zip(d['oracle'], own):
+                    o['b'] = b
             # second entry point: string specification
             d2 = self._run_adjust(case['summ'], case['obs'], case['params'], case['use_names'], spec='linear')
             # the same numeric sample, listed / stored otherwise
             d['runs'] = []
             for run in case.get('runs', []):
                 dr = self._run_adjust(case['summ'], case['obs'], case['params'], case['use_names'], run=run)
-                dr['oracle_b'] = [o['b'] for o in d['oracle']] if default_problem(run.get('cfg')) else \
+                dflt = default_problem(run.get('cfg'))
+                ob = [list(o['b']) for o in d['oracle']] if dflt else \
                     self._oracle_cfg(case['summ'], case['obs'], case['params'], run.get('cfg'))
+                own = self._own_slopes(d['oracle'], dr, run['perm'], ob)
+                dr['oracle_b'] = own if own is not None else ob
+                dr['oracle_own'] = (own is not None) or not dflt      # printed as r_oracle; otherwise [] = the reference run's slope
                 if default_problem(run.get('cfg')) and 'out' in dr and 'out' in d and len(dr['out']) == len(d['out']) and \
                         all(len(a) == len(b) for a, b in zip(dr['out'], d['out'])):
                     with np.errstate(all='ignore'):
@@ -1122,7 +1151,7 @@ class C17(PropCheck):
                             % (clist([cnat(j) for j in run['perm']]), clist([COQDT[x] for x in run['sdt']]),
                                clist([COQDT[x] for x in run['odt']]), clist([COQDT[x] for x in run['pdt']]), rc, r0, ri,
                                ccfg(run.get('cfg')),
-                               '[]' if default_problem(run.get('cfg')) else clist([cql(b) for b in dr['oracle_b']]), x_term(dr)))
+                               clist([cql(b) for b in dr['oracle_b']]) if dr['oracle_own'] else '[]', x_term(dr)))
             return ('CAdj {| a_summ := %s; a_obs := %s; a_params := %s; a_oracle := %s; a_impl_coef := %s; '
                     'a_impl_icpt := %s; a_impl_out := %s; a_impl_X := %s; a_runs := %s |}'
                     % (rows, obs, pars, orc, coef, icpt, impl, x_term(out), clist(runs)))
